@@ -14,7 +14,6 @@
 #ifndef VERIF_C03_BOX_BASE_H
 #define VERIF_C03_BOX_BASE_H
 #include "../C17/interval_int.h"
-#if defined(VERIF_CBMC)
 #ifndef BOX_D
 # error "define BOX_D (space dimension, 0..2)"
 #endif
@@ -50,6 +49,7 @@ SPEC int itv_universe(const ITV_T *x) { return lo_inf(x) && hi_inf(x); }
 SPEC int itv_bounded(const ITV_T *x) { return !lo_inf(x) && !hi_inf(x); }
 SPEC int itv_closed(const ITV_T *x) { return (lo_inf(x) || !lo_open(x)) && (hi_inf(x) || !hi_open(x)); }
 
+#if defined(VERIF_CBMC)
 #define FRAME_B __CPROVER_object_whole(G_xs), __CPROVER_object_whole(G_ys), __CPROVER_object_whole(&G_bx), __CPROVER_object_whole(&G_by)
 #define PRE_BX  PRE(wf_x, x == &G_bx && box_wf(x, G_xs)) PRE(point, pt_ok())
 #define PRE_BXY PRE(wf_x, x == &G_bx && box_wf(x, G_xs)) PRE(wf_y, y == &G_by && box_wf(y, G_ys)) PRE(point, pt_ok())
